@@ -49,12 +49,24 @@ def plan(tier, seed):
 
 def floors(tier):
     return {"distinct_nontrivial": 300, "cls:took_cache_hit": 400, "cls:provider:multi": 300, "cls:provider:forall": 50,
-            "cls:provider:nested": 50, "cls:provider:ruletree": 30, "cls:provider:flatten": 50, "cls:provider:ix": 200, "cls:more_than_500_rows_through_one_operator_cache": 20, "cache.check.hit": 2000, "cache.retrieve": 1000}
+            "cls:provider:nested": 50, "cls:provider:ruletree": 30, "cls:provider:flatten": 50, "cls:provider:ix": 200, "cls:flattened_plain_numbers_as_cache_keys": 300, "cls:more_than_500_rows_through_one_operator_cache": 20, "cache.check.hit": 2000, "cache.retrieve": 1000}
 
 
 def _gen_multi(rng):
     nv = rng.choice([2, 3, 3, 4])
-    case = multi.gen_case(rng, nvars=(nv, nv), depth=(2, 4), opts={"p_leaf": 0.15, "preds": rng.random() < 0.5})
+    # (a share of the worlds hold records with value equality and a value hash: distinct objects that are equal and hash alike)
+    case = multi.gen_case(rng, nvars=(nv, nv), depth=(2, 4), opts={"p_leaf": 0.15, "preds": rng.random() < 0.5}, equal_valued=0.2)
+    if rng.random() < 0.08:
+        # records with value equality and a value hash that differ in a payload field: joined with another variable (the
+        # records are the inner loop) and filtered by a disjunction / negation over the payload
+        world = D.random_world(rng, np_=(2, 4), nq=(1, 2), hi=3)
+        D.add_equal_valued_objects(rng, world, n=(3, 6))
+        A = lambda i, f: ["v", i, [["a", f]]]
+        join = ["cmp", rng.choice(["==", "<=", "!="]), A(1, "a"), A(0, "a")]
+        pay = rng.choice([["or", ["cmp", "<", A(0, "b"), ["lit", 2]], ["cmp", ">", A(0, "b"), ["lit", 2]]],
+                          ["not", ["cmp", "==", A(0, "b"), ["lit", rng.randint(1, 3)]]],
+                          ["or", ["cmp", "==", A(0, "b"), A(1, "b")], ["cmp", ">", A(0, "b"), ["lit", 2]]]])
+        return {"world": world, "kinds": ["E", "P"], "cond": ["and", join, pay], "sel": [0, 1], "equal_records": True}
     if rng.random() < 0.1:
         # alternatives nested to the right whose LAST one joins a variable that was declared first: or_(a(x), or_(b(x), x.a in y.t));
         # the inner disjunction leaves y unbound for some rows and binds it for others
@@ -113,6 +125,16 @@ def cases(spec, ctx):
             yield {"provider": "multi", "case": _gen_large(rng)}
             continue
         k = rng.random()
+        if i % 10 == 3:
+            # flattened PLAIN NUMBERS (-2 and -1 among them: different values with the same hash) as elements or as universal
+            # values: they are keys of the operator caches like objects are
+            c_ = None
+            for _ in range(200):
+                c_ = provs["flatten"].gen_case(rng) if i % 20 == 3 else provs["forall"].gen_case(rng)
+                if c_.get("prim") or c_.get("flatprim"):
+                    break
+            yield {"provider": "flatten" if i % 20 == 3 else "forall", "case": c_, "plain_numbers": True}
+            continue
         if k < 0.12:
             from .. import ix
             yield {"provider": "ix", "case": ix.gen_case(rng)}
@@ -140,6 +162,8 @@ def run_provider(pc, caching, times=3):
 
 def check_case(pc, ctx):
     ctx.cls("cls:provider:" + pc["provider"])
+    if pc.get("plain_numbers"):
+        ctx.cls("cls:flattened_plain_numbers_as_cache_keys")
     if pc["case"].get("large"):
         ctx.cls("cls:more_than_500_rows_through_one_operator_cache")
     try:
